@@ -129,7 +129,7 @@ pub fn c01(env: &Env) -> i32 {
          and the adversary's tactics: complete-everything (Byzantine commit votes added to every vote, certificates assembled and revealed to few or none), lying timeout votes + assembled timeout certificates, equivocating Byzantine leader; \
          oracle after every action: per block number all payloads handed to the execution layer / stored agree across correct nodes, a node never changes or reorders a committed block. \
          Non-trivial = every correct node committed >= 2 blocks and the run contains a timeout certificate, an accepted equivocation, a withheld certificate, a crash/restart or an accepted re-proposal",
-        PartOpts { cases: env.tier.pick(320, 12_000), max_shrink_iters: 60, samples: 2 },
+        PartOpts { cases: env.tier.pick(320, 1_600), max_shrink_iters: 60, samples: 2 },
         || Choices::strategy(400).prop_map(|mut ch| gen_case(&mut ch, &BYZ)),
         c01_check,
     ));
@@ -137,7 +137,7 @@ pub fn c01(env: &Env) -> i32 {
         env,
         "crash_partition",
         "committees of 1-5 correct validators without Byzantine members: partitions (partial flushes), message loss / duplication / reordering, crashes and restarts with deferred persistence, block sync; same oracle",
-        PartOpts { cases: env.tier.pick(400, 15_000), max_shrink_iters: 60, samples: 2 },
+        PartOpts { cases: env.tier.pick(400, 2_000), max_shrink_iters: 60, samples: 2 },
         || Choices::strategy(400).prop_map(|mut ch| gen_case(&mut ch, &CRASHY)),
         c01_check,
     ));
@@ -179,7 +179,7 @@ pub fn c02(env: &Env) -> i32 {
         "history",
         "simulator schedules with an active adversary (as C01/byzantine); monitor: certifiable(n,h) := correct weight that signed a commit vote for (n,h) within one view + all Byzantine weight >= n-f; at most one payload per block number is ever certifiable, no correct validator votes for another payload of that number in a later view, and every certificate found anywhere is for the certifiable payload. \
          Non-trivial = a block was committed and the run contains a timeout certificate together with an accepted equivocation, a withheld certificate or an accepted re-proposal",
-        PartOpts { cases: env.tier.pick(320, 12_000), max_shrink_iters: 60, samples: 2 },
+        PartOpts { cases: env.tier.pick(320, 1_000), max_shrink_iters: 60, samples: 2 },
         || Choices::strategy(400).prop_map(|mut ch| gen_case(&mut ch, &BYZ)),
         c02_check,
     ));
@@ -297,7 +297,7 @@ pub fn c03(env: &Env) -> i32 {
     }
     let mut parts: Vec<PartReport> = vec![];
     parts.extend(common::run_regress::<C03Case>(env, "crash_points", c03_check));
-    for (name, profile, cases) in [("crash_points", EQUIV, env.tier.pick(32u64, 600)), ("crash_points_small", EQUIV_SMALL, env.tier.pick(64, 1200))] {
+    for (name, profile, cases) in [("crash_points", EQUIV, env.tier.pick(32u64, 600)), ("crash_points_small", EQUIV_SMALL, env.tier.pick(64, 160))] {
         parts.push(run_proptest(
             env,
             name,
@@ -354,7 +354,7 @@ pub fn c05(env: &Env) -> i32 {
          oracle after every replica step: view and both highest certificates never decrease; every view change a->b is justified by the input of that step (a proposal / new-view whose justification verifies and has view b, or a vote completing a quorum for view b-1 among what this incarnation was given); adopted certificates verify in isolation; \
          a rejected input changes nothing and emits nothing; every emitted new-view / proposal verifies in isolation and carries the higher of the two held certificates (commit on tie); proposals come only from the view's leader with payload presence matching the justification; timeout votes carry exactly view, high vote and high certificate; commit votes equal the recorded high vote; a timer always yields a timeout vote (and a new-view beyond view 0). \
          Non-trivial = an accepted state-changing step or a rejection at view >= 3; the (phase x kind x relative view x outcome) matrix is in the class histogram",
-        PartOpts { cases: env.tier.pick(320, 12_000), max_shrink_iters: 60, samples: 2 },
+        PartOpts { cases: env.tier.pick(320, 1_000), max_shrink_iters: 60, samples: 2 },
         || Choices::strategy(400).prop_map(|mut ch| gen_case(&mut ch, &MUTATED)),
         c05_check,
     ));
@@ -362,7 +362,7 @@ pub fn c05(env: &Env) -> i32 {
         env,
         "invariants_small",
         "same oracle on committees of 1-5 correct validators with crashes, restarts and partitions",
-        PartOpts { cases: env.tier.pick(320, 12_000), max_shrink_iters: 60, samples: 1 },
+        PartOpts { cases: env.tier.pick(320, 1_000), max_shrink_iters: 60, samples: 1 },
         || Choices::strategy(400).prop_map(|mut ch| gen_case(&mut ch, &Profile { variants: true, ..CRASHY })),
         c05_check,
     ));
@@ -397,7 +397,7 @@ pub fn flood_part(env: &Env) -> PartReport {
         env,
         "replica_caches",
         "simulator schedules in which Byzantine validators flood correct replicas with validly signed commit / timeout votes for 3-60 distinct future views per burst (starting at view 0, 5 or 1000), interleaved with normal operation; oracle after every step, n = committee size: both latest-vote maps <= n entries, partial certificates kept for <= n views, <= n^2 accumulators / timeout messages in total. Non-trivial = >= 50 flood messages delivered",
-        PartOpts { cases: env.tier.pick(200, 8_000), max_shrink_iters: 40, samples: 2 },
+        PartOpts { cases: env.tier.pick(200, 700), max_shrink_iters: 40, samples: 2 },
         || {
             Choices::strategy(400).prop_map(|mut ch| {
                 let mut c = gen_case(&mut ch, &FLOOD);
@@ -441,7 +441,7 @@ pub fn c10_handlers(env: &Env) -> i32 {
         env,
         "handlers",
         "L6: real replica handlers fed validly signed but absurd messages from a Byzantine validator (view / block number u64::MAX, empty and 100000-bit signer maps, a timeout certificate with 1000 empty groups, certificates for other views), floods and message variants, interleaved with normal operation; oracle: no handler panics or returns an internal error. Non-trivial = absurd messages were delivered",
-        PartOpts { cases: env.tier.pick(160, 6_000), max_shrink_iters: 40, samples: 2 },
+        PartOpts { cases: env.tier.pick(160, 1_200), max_shrink_iters: 40, samples: 2 },
         || {
             Choices::strategy(400).prop_map(|mut ch| {
                 let mut c = gen_case(&mut ch, &ABSURD);
@@ -574,7 +574,7 @@ pub fn c06(env: &Env) -> i32 {
     }
     let mut parts: Vec<PartReport> = vec![];
     parts.extend(common::run_regress::<SimCase>(env, "heal", c06_check));
-    for (name, profile, cases) in [("heal", BYZ, env.tier.pick(200u64, 4_000)), ("heal_small", CRASHY, env.tier.pick(200, 4_000))] {
+    for (name, profile, cases) in [("heal", BYZ, env.tier.pick(200u64, 1_600)), ("heal_small", CRASHY, env.tier.pick(200, 1_600))] {
         parts.push(run_proptest(
             env,
             name,
@@ -848,7 +848,7 @@ pub fn c16(env: &Env) -> i32 {
             "input_channel_threads",
             "the real input channel with 2-4 sender THREADS released together by a spin barrier, each sending 1-6 validly signed messages drawn from 2 signers x 2 kinds x views 0-9 (so that threads collide on the same sender and kind), no consumer while they run, repeated 25 times per case on a fresh channel; \
              oracle (independent of the interleaving, valid for any linearisable channel): afterwards exactly one message per (sender, kind) is pending and it carries the highest view sent for it. Non-trivial = two threads send for the same (sender, kind)",
-            PartOpts { cases: env.tier.pick(300, 6_000), max_shrink_iters: 60, samples: 2 },
+            PartOpts { cases: env.tier.pick(300, 1_500), max_shrink_iters: 60, samples: 2 },
             || {
                 proptest::collection::vec(proptest::collection::vec((0u8..2, 0u8..2, 0u8..10), 1..6), 2..=4).prop_map(|threads| ChanThreadsCase { threads, reps: 25 })
             },
